@@ -1260,12 +1260,24 @@ class ReprStructure:
             if all(col.width == col.max_width for col in self.columns):
                 break
 
-    def remove_columns(self, columns_names):
-        """Remove specified column from self"""
-        self.columns = [
+    def reset_columns_widths(self):
+        """Forget actual widths of columns, they will be detected at the next print."""
+        for col in self.columns:
+            col.width = None
+
+    def remove_columns(self, columns_names) -> bool:
+        """Remove specified column from self. Returns True if anything was removed."""
+        columns = [
             c for c in self.columns
             if c.name not in columns_names
         ]
+        if len(columns) == len(self.columns):
+            return False
+        self.columns = columns
+        # the actual widths were detected for the records visible with the
+        # previous set of columns (removing a 'break_by' column changes it)
+        self.reset_columns_widths()
+        return True
 
     def make_record_ch_chunks_all(self, record, cp) -> [[CHText.Chunk]]:
         """Create intermediate data for the record's text representation.
@@ -1648,7 +1660,8 @@ class PPTableFormat:
 
     def remove_columns(self, columns_names):
         """Remove columns from table."""
-        self.repr_structure.remove_columns(columns_names)
+        if self.repr_structure.remove_columns(columns_names):
+            self.any_lines_skipped = None
 
     def set_limits(self, limits):
         """Change number of printrable records.
@@ -1663,6 +1676,10 @@ class PPTableFormat:
             f"invalid limits specified: {limits}. Expected value is None "
             f"or (n_firts, n_last)")
         self.limit_flines, self.limit_llines = limits
+        # what was detected when the table was printed with the previous limits
+        # (other records were visible) is not valid any more
+        self.any_lines_skipped = None
+        self.repr_structure.reset_columns_widths()
 
     @staticmethod
     def _parse_fmt(fmt):
